@@ -122,6 +122,7 @@ P(name) ==
     [] name = "C06_Increasing"   -> OnCall => C06_Increasing(I, e)
     [] name = "C06_StepInRange"  -> OnCall => C06_StepInRange(I, e)
     [] name = "C06_RampMonotone" -> OnCall => C06_RampMonotone(I, e)
+    [] name = "C06_RampMoves"  -> OnCall => C06_RampMoves(I, e)
     [] name = "C06_Supplied"     -> OnCall => C06_Supplied(I, e)
     [] name = "C07_NoDrift"      -> OnCall => C07_NoDrift(I, e)
     [] name = "C07_FftExact"     -> OnCall => C07_FftExact(I, e)
@@ -156,6 +157,7 @@ H_C05_FftSmooth == Hard("C05_FftSmooth")       S_C05_FftSmooth == Soft("C05_FftS
 H_C06_Increasing == Hard("C06_Increasing")     S_C06_Increasing == Soft("C06_Increasing")
 H_C06_StepInRange == Hard("C06_StepInRange")   S_C06_StepInRange == Soft("C06_StepInRange")
 H_C06_RampMonotone == Hard("C06_RampMonotone") S_C06_RampMonotone == Soft("C06_RampMonotone")
+H_C06_RampMoves == Hard("C06_RampMoves")   S_C06_RampMoves == Soft("C06_RampMoves")
 H_C06_Supplied == Hard("C06_Supplied")         S_C06_Supplied == Soft("C06_Supplied")
 H_C07_NoDrift == Hard("C07_NoDrift")           S_C07_NoDrift == Soft("C07_NoDrift")
 H_C07_FftExact == Hard("C07_FftExact")         S_C07_FftExact == Soft("C07_FftExact")
